@@ -4,5 +4,6 @@ CONSTANTS
   MaxFields = 2
   EmitMod = 1000000
   WarmInSeedOrder = TRUE
+  GenInSeedOrder = FALSE
 INVARIANTS PlainIsValidInv EduceIfDirectInv NoSpuriousEduceInv Functional
 CHECK_DEADLOCK FALSE
